@@ -296,7 +296,10 @@ def run(ck):
             if got != want:
                 key = {"nested": "recover-in-nested-call-stops-panic", "loopThenDefer": "defer-lifo-broken-by-block-compile-order",
                        "alwaysUnreached": "defer-always-replayed-though-never-reached",
-                       "drainCross": "defer-loop-drain-crosses-argless-defer"}.get(name, "defer-probe-" + name)
+                       "drainCross": "defer-loop-drain-crosses-argless-defer",
+                       "rfNamedOnly": "rangefunc-only-defers-lose-named-result-changes"}.get(name, "defer-probe-" + name)
+                if name == "rfNamedOnly" and not (got and got[0] == "rfNamed 1 7"):
+                    key = "defer-probe-" + name      # the listed finding is exactly `rfNamed 1 7` (operands of the return statements)
                 ck.violation(key, "probe %s: llgo %s vs go %s" % (name, got, want), {"probe": name, "llgo": got, "go": want, "rc": a[0]})
     # Goexit + panic in a deferred call, unrecovered: exit status and first panic line
     pd = os.path.join(ck.work, "goexitpanic")
